@@ -257,6 +257,9 @@ def thorough_cases() -> List[Dict[str, Any]]:
                 cs.append(_mk(runner, req, app))
         for req in ws_requests():
             cs.append(_mk(runner, req, SHAPES_ENV[0]))
+        # ... and every shape once more with sends that suspend (a transport under pressure)
+        for app in all_shapes():
+            cs.append(dict(_mk(runner, shape_requests()[0], app), slow_send=True))
     return _dedup(cs)
 
 
@@ -292,6 +295,9 @@ def quick_cases(rng: random.Random) -> List[Dict[str, Any]]:
             cs.append(_mk(runner, req, SHAPES_ENV[k % 2]))
             k += 1
     cs.append(_mk("asyncio", make_req(path=["/"]), SHAPES_ENV[0]))
+    # every application shape with sends that suspend, runners rotated
+    for i, app in enumerate(shapes):
+        cs.append(dict(_mk(RUNNERS[i % 4], sreqs[0], app), slow_send=True))
     # every body/limit placement, runners rotated
     for i, (mx, body) in enumerate(BODIES_ALL):
         req = make_req("http", "POST", PATHS[0], ("prefix", 0), "", "1.1", HEADER_SETS[1], i % 2 == 0, mx, body)
@@ -333,6 +339,9 @@ class Recorder:
         self.close_calls = 0
         self.sent: List[Any] = []
         self.logged: List[str] = []
+        self.entered = 0      # sends begun
+        self.inflight = 0     # sends begun and not yet returned
+        self.overlaps = 0     # a send was begun while another had not returned
 
 
 class ClosableIter:
@@ -495,11 +504,35 @@ class _Config:
         self.log = _Log(rec)
 
 
-def _run_asyncio_worker(wrapper: Any, scope: dict, msgs: List[dict], rec: Recorder) -> str:
+def _make_send(rec: Recorder, slow: bool, checkpoint: Callable) -> Callable:
+    """What the adapter sends to.  With `slow` a send suspends like a transport write under pressure (the first one
+    for longer than those behind it): the adapter has to wait for each send before it makes the next - messages
+    are recorded when their send completes."""
+    async def send(message: Any) -> None:
+        k = rec.entered
+        rec.entered += 1
+        rec.inflight += 1
+        if rec.inflight > 1:
+            rec.overlaps += 1
+        try:
+            if slow:
+                for _ in range(5 if k == 0 else 1):
+                    await checkpoint()
+            rec.sent.append(message)
+        finally:
+            rec.inflight -= 1
+
+    return send
+
+
+async def _aio_checkpoint() -> None:
+    await asyncio.sleep(0)
+
+
+def _run_asyncio_worker(wrapper: Any, scope: dict, msgs: List[dict], rec: Recorder, slow: bool = False) -> str:
     from hypercorn.asyncio.task_group import TaskGroup
 
-    async def send(message: Any) -> None:
-        rec.sent.append(message)
+    send = _make_send(rec, slow, _aio_checkpoint)
 
     async def main() -> None:
         rec.loop_thread = threading.get_ident()
@@ -513,12 +546,11 @@ def _run_asyncio_worker(wrapper: Any, scope: dict, msgs: List[dict], rec: Record
     return _guard(lambda: asyncio.run(main()))
 
 
-def _run_trio_worker(wrapper: Any, scope: dict, msgs: List[dict], rec: Recorder) -> str:
+def _run_trio_worker(wrapper: Any, scope: dict, msgs: List[dict], rec: Recorder, slow: bool = False) -> str:
     import trio
     from hypercorn.trio.task_group import TaskGroup
 
-    async def send(message: Any) -> None:
-        rec.sent.append(message)
+    send = _make_send(rec, slow, trio.lowlevel.checkpoint)
 
     async def main() -> None:
         rec.loop_thread = threading.get_ident()
@@ -531,7 +563,7 @@ def _run_trio_worker(wrapper: Any, scope: dict, msgs: List[dict], rec: Recorder)
     return _guard(lambda: trio.run(main))
 
 
-def _mw_channels(msgs: List[dict], rec: Recorder) -> Tuple[Callable, Callable]:
+def _mw_channels(msgs: List[dict], rec: Recorder, slow: bool = False, checkpoint: Optional[Callable] = None) -> Tuple[Callable, Callable]:
     queue = list(msgs)
 
     async def receive() -> dict:
@@ -539,16 +571,13 @@ def _mw_channels(msgs: List[dict], rec: Recorder) -> Tuple[Callable, Callable]:
             return queue.pop(0)
         return {"type": "http.disconnect"}
 
-    async def send(message: Any) -> None:
-        rec.sent.append(message)
-
-    return receive, send
+    return receive, _make_send(rec, slow, checkpoint or _aio_checkpoint)
 
 
-def _run_asyncio_mw(wsgi_app: Callable, max_body: int, scope: dict, msgs: List[dict], rec: Recorder) -> str:
+def _run_asyncio_mw(wsgi_app: Callable, max_body: int, scope: dict, msgs: List[dict], rec: Recorder, slow: bool = False) -> str:
     from hypercorn.middleware import AsyncioWSGIMiddleware
 
-    receive, send = _mw_channels(msgs, rec)
+    receive, send = _mw_channels(msgs, rec, slow, _aio_checkpoint)
 
     async def main() -> None:
         rec.loop_thread = threading.get_ident()
@@ -559,11 +588,11 @@ def _run_asyncio_mw(wsgi_app: Callable, max_body: int, scope: dict, msgs: List[d
     return _guard(lambda: asyncio.run(main()))
 
 
-def _run_trio_mw(wsgi_app: Callable, max_body: int, scope: dict, msgs: List[dict], rec: Recorder) -> str:
+def _run_trio_mw(wsgi_app: Callable, max_body: int, scope: dict, msgs: List[dict], rec: Recorder, slow: bool = False) -> str:
     import trio
     from hypercorn.middleware import TrioWSGIMiddleware
 
-    receive, send = _mw_channels(msgs, rec)
+    receive, send = _mw_channels(msgs, rec, slow, trio.lowlevel.checkpoint)
 
     async def main() -> None:
         rec.loop_thread = threading.get_ident()
@@ -669,6 +698,11 @@ def abstract_result(case: Dict[str, Any], rec: Recorder, exc: str, body: bytes) 
         else:
             other += 1
     expected_body = b"".join(chunk_payloads(case["app"]["chunks"]))
+    kinds = [m.get("type") for m in rec.sent if isinstance(m, dict)]
+    in_order = not ("http.response.body" in kinds and "http.response.start" in kinds
+                    and kinds.index("http.response.body") < kinds.index("http.response.start"))
+    if None in rec.sent and rec.sent.index(None) != len(rec.sent) - 1:
+        in_order = False      # something was sent after the end-of-application marker
     resp = {
         "start_count": start_count,
         "status": status,
@@ -678,6 +712,7 @@ def abstract_result(case: Dict[str, Any], rec: Recorder, exc: str, body: bytes) 
         "body_eq": sent_body == expected_body,
         "final": final,
         "other": other,
+        "serial": in_order and rec.overlaps == 0,   # one send at a time, in the order the application made them
     }
     if exc == "" and rec.logged:
         exc = rec.logged[0]
@@ -702,14 +737,15 @@ def run_case(case: Dict[str, Any]) -> List[Dict[str, Any]]:
     scope = build_scope(req)
     body, msgs = build_messages(req)
     runner = case["runner"]
+    slow = bool(case.get("slow_send"))
     if runner == "asyncio":
-        exc = _run_asyncio_worker(WSGIWrapper(wsgi_app, req["max_body"]), scope, msgs, rec)
+        exc = _run_asyncio_worker(WSGIWrapper(wsgi_app, req["max_body"]), scope, msgs, rec, slow)
     elif runner == "trio":
-        exc = _run_trio_worker(WSGIWrapper(wsgi_app, req["max_body"]), scope, msgs, rec)
+        exc = _run_trio_worker(WSGIWrapper(wsgi_app, req["max_body"]), scope, msgs, rec, slow)
     elif runner == "asyncio-mw":
-        exc = _run_asyncio_mw(wsgi_app, req["max_body"], scope, msgs, rec)
+        exc = _run_asyncio_mw(wsgi_app, req["max_body"], scope, msgs, rec, slow)
     elif runner == "trio-mw":
-        exc = _run_trio_mw(wsgi_app, req["max_body"], scope, msgs, rec)
+        exc = _run_trio_mw(wsgi_app, req["max_body"], scope, msgs, rec, slow)
     else:
         raise ValueError("unknown runner %r" % runner)
     event = {"e": "case"}
